@@ -579,7 +579,8 @@ func genMaps(g *G) string {
 	case 4: // slice values
 		g.P("m := map[string][]int{}")
 		for i := 0; i < 3+g.n(4); i++ {
-			g.P("m[%s] = append(m[%s], %d)", q(pick(g, []string{"a", "b", "c"})), q(pick(g, []string{"a", "b", "c"})), g.n(10))
+			k := q(pick(g, []string{"a", "b", "c"})) // same key on both sides: sharing across keys would depend on capacity growth
+			g.P("m[%s] = append(m[%s], %d)", k, k, g.n(10))
 		}
 		g.P("var ks []string")
 		g.P("for k := range m {")
